@@ -164,11 +164,18 @@ class ClassModel:
         return Ev(self.env, self.where, self, self.max_steps)  # type: ignore[arg-type]  # closures copy the environment per call
 
     def _method(self, fn: ast.FunctionDef, owner: str | None = None) -> Callable:
+        decos = {ast.unparse(d).split(".")[-1] for d in fn.decorator_list}
+
         def call(recv: Obj, *args: Any, **kwargs: Any) -> Any:
             extra = dict(self.mod_env.get(self.class_rel.get(owner or "", ""), ()))
             extra["__owner__"] = owner
             extra["__self__"] = recv
-            return self._ev().closure(fn, base_env=self.env, extra=extra)(recv, *args, **kwargs)
+            f = self._ev().closure(fn, base_env=self.env, extra=extra)
+            if "staticmethod" in decos:
+                return f(*args, **kwargs)
+            if "classmethod" in decos:
+                return f(self.env.get(recv.kinds[0] if isinstance(recv, Obj) else owner or ""), *args, **kwargs)
+            return f(recv, *args, **kwargs)
 
         return call
 
